@@ -278,6 +278,44 @@ func CheckAccounting(ssn *framework.Session, whole bool, twins Twins) []Discrepa
 			out = append(out, Discrepancy{sig, fmt.Sprintf(format, a...)})
 		}
 	}
+	// The pods present on a node, with the status that decides their bucket, are the workloads' own task tables: a
+	// task that its workload has on node n as releasing / nominated / occupying must be in n's pod table in the same
+	// accounting class (a committed pod stays 'Allocated' in the node's copy while the workload says Binding: same class).
+	class := func(st pod_status.PodStatus) string {
+		switch {
+		case st == pod_status.Releasing:
+			return "releasing"
+		case st == pod_status.Pipelined:
+			return "nominated"
+		case pod_status.AllocatedStatus(st):
+			return "occupying"
+		}
+		return ""
+	}
+	jobIDs := make([]string, 0, len(ssn.ClusterInfo.PodGroupInfos))
+	for id := range ssn.ClusterInfo.PodGroupInfos {
+		jobIDs = append(jobIDs, string(id))
+	}
+	sort.Strings(jobIDs)
+	for _, id := range jobIDs {
+		job := ssn.ClusterInfo.PodGroupInfos[common_info.PodGroupID(id)]
+		for _, t := range job.GetAllPodsMap() {
+			want := class(t.Status)
+			if want == "" || t.NodeName == "" {
+				continue
+			}
+			ni := ssn.ClusterInfo.Nodes[t.NodeName]
+			if ni == nil {
+				continue // node outside the snapshot (other pool, deleted)
+			}
+			e := ni.PodInfos[pod_info.PodKey(t.Pod)]
+			if e == nil {
+				add("node-pod-table-misses-task", "task %s is %v on node %s for its workload, the node's pod table has no entry for it", t.Name, t.Status, t.NodeName)
+			} else if got := class(e.Status); got != want {
+				add("node-pod-table-status-differs-from-task", "task %s is %v on node %s for its workload, the node's pod table has it as %v", t.Name, t.Status, t.NodeName, e.Status)
+			}
+		}
+	}
 	vm := ssn.ClusterInfo.ResourceVectorMap
 	nodeNames := make([]string, 0, len(ssn.ClusterInfo.Nodes))
 	for n := range ssn.ClusterInfo.Nodes {
@@ -374,11 +412,6 @@ func CheckAccounting(ssn *framework.Session, whole bool, twins Twins) []Discrepa
 		}
 	}
 	// workloads
-	jobIDs := make([]string, 0, len(ssn.ClusterInfo.PodGroupInfos))
-	for id := range ssn.ClusterInfo.PodGroupInfos {
-		jobIDs = append(jobIDs, string(id))
-	}
-	sort.Strings(jobIDs)
 	type qsum struct{ all, np [3]float64 }
 	perQueue := map[common_info.QueueID]*qsum{}
 	for _, id := range jobIDs {
